@@ -154,7 +154,11 @@ PROPS = {
                    {"name": "C03", "quick": 96, "thorough": 3000, "workers": 2, "config": "[network]\ncache_size = 3\n"},
                    {"name": "C03", "quick": 96, "thorough": 3000, "workers": 2, "config": "[network]\ncache_size = 5\n"},
                    # several askers of one URL at once, document fetches and webfinger lookups mixed
-                   {"name": "C03same", "quick": 48, "thorough": 1500, "workers": 8, "config": "[network]\ntimeout_seconds = 1\n"}],
+                   {"name": "C03same", "quick": 48, "thorough": 1500, "workers": 8, "config": "[network]\ntimeout_seconds = 1\n"},
+                   # whole worlds browsed (items built from the documents the cache hands out), then every document fetched again
+                   {"name": "C02", "quick": 300, "thorough": 10000, "workers": 8},
+                   # items built twice from one decoded document: the document is afterwards what it was
+                   {"name": "rebuild", "quick": 400, "thorough": 15000, "workers": 12}],
         "rule": "status / Content-Type / Location lines and header blocks from a grammar with mutations (case, blanks, CR, missing newline, odd versions and codes); worlds of 1..4 documents and 0..22 redirects over five loopback TLS hosts plus a host reached by name, one by IPv6 literal and one on the default port "
                 "(relative ('x', './x', '../d/x', '//host/x') and cross-host Locations, Locations with fragments, non-https hops, missing/unparsable Location, two Location lines, a Location on a 2xx/4xx response, self loops and cycles, every 3xx code from 300 to 310 and 399, status codes next to 200-203, "
                 "odd status lines, content types, bodies incl. nesting beyond the decoder's limit, two values, duplicate keys, a BOM) under redirect budgets 0, 1, 2, 3, 5 and 20 with chains of budget-1, budget, budget+1 and budget+2 hops fetched cold, with the final document cached, with the last redirect cached and with every link cached; "
@@ -256,7 +260,9 @@ PROPS = {
                    # the accessors called from many goroutines at once, as the constructors of a page's items do
                    {"name": "C17par", "quick": 40, "thorough": 2000, "workers": 4},
                    # documents as they arrive: fetched, decoded by jtp.Get, refused as a whole when a number does not fit
-                   {"name": "C03", "quick": 300, "thorough": 8000, "workers": 4}],
+                   {"name": "C03", "quick": 300, "thorough": 8000, "workers": 4},
+                   # the decoded document after items were built from it: value for value what the accessors were given
+                   {"name": "rebuild", "quick": 600, "thorough": 20000, "workers": 12}],
         "rule": "JSON documents with null/bool/number/string/array/object under keys k, m, z (numbers from two edge pools around 0, +-1, signed zeros, subnormals, 2^31, 2^32, 2^53, 2^63, 2^64 and their neighbouring doubles, zero fractions, cancelling exponents, over-long digit strings, random bit patterns and integers around powers of two; strings with control characters, timestamps, URLs, media types) x every accessor x present/absent keys; "
                 "half of the cases choose the accessor first and file under the key a value of the vocabulary it parses (RFC 3339 corners: leap second, offsets to +-24:00, lower-case t/z, fraction digits with '.' and ',', years 0000..10000, impossible dates, padding; well-formed timestamps and token/token media types drawn field by field; about 120 URLs that parse oddly; the four renderable media types and their near misses for GetMarkup), "
                 "then possibly damage it: C0/C1/ESC/bidi/zero-width characters at one to three places, only-removed characters, case changes, blank padding, tails up to 100 000 characters, doubling; strings spelled with \\u escapes, surrogate pairs and lone surrogates; natural-language maps (tags empty, und, upper case, malformed), @value objects, nesting to depth 100, arrays and objects of thousands of members; "
